@@ -272,7 +272,7 @@ func VH03a_history() {
 		checkRecvs(cs, lab)
 	}
 	verif.Reach("history-done")
-	sock.Close()
+	vp.CloseCensus(sock, "C10/req/after-history")
 }
 
 // ---------------- C04: re-send until answered
@@ -474,7 +474,7 @@ func VH04a_resend() {
 	}
 	_ = rmsg
 	verif.Reach("done")
-	sock.Close()
+	vp.CloseCensus(sock, "C10/req/after-history")
 }
 
 // VH03b_requeue: directed family of histories around a request that is waiting
@@ -624,7 +624,7 @@ func VH03b_requeue() {
 		}
 	}
 	verif.Reach("requeue-checked")
-	sock.Close()
+	vp.CloseCensus(sock, "C10/req/after-history")
 }
 
 // VH03c_queued: a request that is still queued inside the socket (the only
@@ -725,7 +725,7 @@ func VH03c_queued() {
 		verif.Assert(rerr == nil && len(m.Body) == 1 && m.Body[0] == 'b', lab+"/wrong-reply-delivered")
 	}
 	verif.Reach("queued-checked")
-	sock.Close()
+	vp.CloseCensus(sock, "C10/req/after-history")
 }
 
 // VH04c_inflight: the connection carrying a request dies while the write is
@@ -778,7 +778,7 @@ func VH04c_inflight() {
 	verif.Assert(bad.SendCalls == 1, lab+"/detached-connection-offered-traffic-again")
 	verif.Assert(len(good.Sent) == 3, lab+"/request-lost-although-accepted-after-the-failed-connection-was-detached")
 	verif.Reach("inflight-checked")
-	sock.Close()
+	vp.CloseCensus(sock, "C10/req/after-history")
 }
 
 // VH03e_late_reply: directed family "the previous request ended in way W, then
@@ -914,7 +914,7 @@ func VH03e_late_reply() {
 	verif.Quiesce()
 	verif.Assert(g3.Done() && e3 == mangos.ErrCanceled, lab+"/recv-abandoned-by-a-newer-send-does-not-fail-with-the-cancellation-error")
 	verif.Reach("late-reply-checked")
-	sock.Close()
+	vp.CloseCensus(sock, "C10/req/after-history")
 }
 
 // VH04d_retry_change: the retry option is changed while a request is
@@ -1004,7 +1004,7 @@ func VH04d_retry_change() {
 		verif.Assert(len(p1.Sent) == 0, lab+"/retry-timer-fired-although-retries-are-off")
 		verif.Reach("cancelled-after-disabling-retries")
 	}
-	sock.Close()
+	vp.CloseCensus(sock, "C10/req/after-history")
 }
 
 // VH03g_burst: K of {a Send; another Send from a second goroutine; a pending
@@ -1250,7 +1250,7 @@ func VH03g_burst() {
 	_, e2 := r.recvMsg()
 	verif.Assert(e2 == mangos.ErrProtoState, lab+"/second-recv-without-request")
 	verif.Reach("burst-epilogue")
-	sock.Close()
+	vp.CloseCensus(sock, "C10/req/after-history")
 }
 
 // VH04e_burst: a request is outstanding on one of two connections and a Recv
@@ -1377,7 +1377,7 @@ func VH04e_burst() {
 	verif.Assert(m == n, lab+"/retransmitted-after-the-reply-was-delivered")
 	_, e2 := sock.Recv()
 	verif.Assert(e2 == mangos.ErrProtoState, lab+"/reply-delivered-twice")
-	sock.Close()
+	vp.CloseCensus(sock, "C10/req/after-history")
 }
 
 // VH04f_cycles: R request/reply exchanges in a row on one REQ socket or context
@@ -1485,7 +1485,7 @@ func VH04f_cycles() {
 		oldIDs = append(oldIDs, id)
 	}
 	verif.Reach("cycles-done")
-	sock.Close()
+	vp.CloseCensus(sock, "C10/req/after-history")
 }
 
 func (r *rctx) recvMsg2() ([]byte, error) {
@@ -1633,7 +1633,7 @@ func VH03i_many_contexts() {
 		verif.Assert(err == nil && len(b) == 2 && b[0] == x.tag, lab+"/context-did-not-receive-the-reply-to-its-own-request")
 	}
 	verif.Reach("many-contexts-checked")
-	sock.Close()
+	vp.CloseCensus(sock, "C10/req/after-history")
 }
 
 // VH04g_many_peers: a REQ socket with P (4) peers. After 0..3 complete
@@ -1713,7 +1713,7 @@ func VH04g_many_peers() {
 	b, err := sock.Recv()
 	verif.Assert(err == nil && len(b) == 1 && b[0] == 'R', lab+"/reply-of-the-last-survivor-not-delivered")
 	verif.Reach("many-peers-checked")
-	sock.Close()
+	vp.CloseCensus(sock, "C10/req/after-history")
 }
 
 // VH04i_shared_carrier: N contexts (socket included) each have a request outstanding, all carried by the same
@@ -1808,7 +1808,7 @@ func VH04i_shared_carrier() {
 		}
 	}
 	verif.Reach("shared-carrier-resent")
-	sock.Close()
+	vp.CloseCensus(sock, "C10/req/after-history")
 }
 
 // VH04h_write_fault: the connection that is handed a request cannot be written
@@ -1891,5 +1891,5 @@ func VH04h_write_fault() {
 		verif.Reach("waited-for-a-peer")
 	}
 	verif.Assert(bad.SendCalls == n, lab+"/dead-connection-offered-traffic-again")
-	sock.Close()
+	vp.CloseCensus(sock, "C10/req/after-history")
 }
